@@ -1,8 +1,33 @@
-(* C14 — lemmas. *)
+(* C14 — basic lemmas: lists as total maps, sums, and the model invariant
+   (cached value = sum of the tag values, cached count = number of tracked
+   connections, temp flag coherent with the connections). *)
 From Coq Require Import List Arith ZArith Bool Lia.
 From Verif Require Import lib.Wire c14.Model c14.Spec.
 Import ListNotations.
 Local Open Scope Z_scope.
+
+(* ---- upd / get ----------------------------------------------------------------- *)
+Lemma upd_nil_get : forall {A} (d x : A) i j, get d (upd d [] i x) j = if Nat.eqb i j then x else d.
+Proof.
+  unfold get. intros A d x. induction i as [|i IH]; intros j; cbn [upd].
+  - destruct j as [|[|j]]; reflexivity.
+  - destruct j as [|j]; [reflexivity|]. cbn [nth Nat.eqb]. apply IH.
+Qed.
+
+Lemma get_upd : forall {A} (d : A) l i x j,
+  get d (upd d l i x) j = if Nat.eqb i j then x else get d l j.
+Proof.
+  intros A d. induction l as [|y r IH]; intros i x j.
+  - rewrite upd_nil_get. destruct (Nat.eqb i j); [reflexivity|]. unfold get. destruct j; reflexivity.
+  - destruct i as [|i]; destruct j as [|j]; cbn [upd Nat.eqb]; try reflexivity.
+    unfold get in *. cbn [nth]. apply IH.
+Qed.
+
+Lemma get_upd_same : forall {A} (d : A) l i x, get d (upd d l i x) i = x.
+Proof. intros. rewrite get_upd, Nat.eqb_refl. reflexivity. Qed.
+
+Lemma get_upd_other : forall {A} (d : A) l i x j, i <> j -> get d (upd d l i x) j = get d l j.
+Proof. intros A d l i x j H. rewrite get_upd. apply Nat.eqb_neq in H. rewrite H. reflexivity. Qed.
 
 Lemma zsum_upd : forall l i x, zsum (upd 0 l i x) = zsum l - get 0 l i + x.
 Proof.
@@ -10,4 +35,279 @@ Proof.
   - induction i as [|j IHj]; cbn [upd zsum nth] in *; [lia|].
     rewrite IHj. destruct j; cbn; lia.
   - destruct i as [|j]; cbn [upd zsum nth]; [lia|]. rewrite IH. lia.
+Qed.
+
+Lemma zsum_map_upd : forall {A} (f : A -> Z) (d : A) l i x, f d = 0 ->
+  zsum (map f (upd d l i x)) = zsum (map f l) - f (get d l i) + f x.
+Proof.
+  unfold get. intros A f d l i x Hd. revert i. induction l as [|y r IH]; intros i.
+  - induction i as [|j IHj]; cbn [upd map zsum nth] in *; [lia|].
+    rewrite IHj. destruct j; cbn; lia.
+  - destruct i as [|j]; cbn [upd map zsum nth]; [lia|]. rewrite IH. lia.
+Qed.
+
+Lemma Forall_upd : forall {A} (P : A -> Prop) (d : A) l i x,
+  P d -> P x -> Forall P l -> Forall P (upd d l i x).
+Proof.
+  intros A P d l i x Hd Hx. revert i. induction l as [|y r IH]; intros i H.
+  - induction i as [|j IHj]; cbn [upd]; constructor; auto.
+  - inversion H; subst. destruct i as [|j]; cbn [upd]; constructor; auto.
+Qed.
+
+Lemma Forall_get : forall {A} (P : A -> Prop) (d : A) l i, P d -> Forall P l -> P (get d l i).
+Proof.
+  unfold get. intros A P d l i Hd H. revert i. induction H as [|y r Hy Hr IH]; intros i.
+  - destruct i; exact Hd.
+  - destruct i as [|j]; cbn [nth]; auto.
+Qed.
+
+Lemma length_upd : forall {A} (d : A) l i x, length (upd d l i x) = Nat.max (length l) (S i).
+Proof.
+  intros A d. induction l as [|y r IH]; intros i x.
+  - induction i as [|j IHj]; cbn [upd length] in *; [reflexivity|]. rewrite IHj. reflexivity.
+  - destruct i as [|j]; cbn [upd length]; [lia|]. rewrite IH. lia.
+Qed.
+
+Lemma map_upd : forall {A B} (f : A -> B) (d : A) l i x,
+  map f (upd d l i x) = upd (f d) (map f l) i (f x).
+Proof.
+  intros A B f d. induction l as [|y r IH]; intros i x.
+  - induction i as [|j IHj]; cbn [upd map] in *; [reflexivity|]. rewrite IHj. reflexivity.
+  - destruct i as [|j]; cbn [upd map]; [reflexivity|]. rewrite IH. reflexivity.
+Qed.
+
+Lemma get_map : forall {A B} (f : A -> B) (d : A) l i, get (f d) (map f l) i = f (get d l i).
+Proof. intros. unfold get. apply map_nth. Qed.
+
+(* ---- rem1 / memn ---------------------------------------------------------------- *)
+Lemma rem1_length : forall c l, memn c l = true -> zlen (rem1 c l) = zlen l - 1.
+Proof.
+  unfold zlen. induction l as [|y r IH]; cbn [memn rem1 length]; intros H; [discriminate|].
+  destruct (Nat.eqb c y); [lia|]. cbn [orb] in H. cbn [length]. specialize (IH H). lia.
+Qed.
+
+(* ---- decay_tags ------------------------------------------------------------------- *)
+Lemma decay_tags_sum : forall vs dec,
+  zsum (fst (decay_tags vs dec)) = zsum dec + snd (decay_tags vs dec).
+Proof.
+  intros vs dec. revert vs. induction dec as [|v r IH]; intros vs; [destruct vs; cbn; lia|].
+  destruct vs as [|[k b] vr]; [cbn; lia|].
+  cbn [decay_tags]. specialize (IH vr). destruct (decay_tags vr r) as [r' dl].
+  cbn [fst snd] in IH. destruct b; cbn [fst snd zsum]; lia.
+Qed.
+
+(* ---- the invariant ------------------------------------------------------------------ *)
+Definition peer_ok (pi : peer) : Prop :=
+  (p_tracked pi = false -> pi = nopeer)
+  /\ p_value pi = zsum (p_tags pi) + zsum (p_dec pi)
+  /\ (p_tracked pi = true -> p_temp pi = is_nil (p_conns pi)).
+
+Definition conn_total (ps : list peer) : Z := zsum (map (fun pi => zlen (p_conns pi)) ps).
+
+Definition inv (s : state) : Prop :=
+  Forall peer_ok (peers s) /\ count s = conn_total (peers s).
+
+Lemma nopeer_ok : peer_ok nopeer.
+Proof. repeat split; intros; try reflexivity; discriminate. Qed.
+
+Lemma peer_at_ok : forall s p, inv s -> peer_ok (peer_at s p).
+Proof. intros s p [H _]. unfold peer_at. apply Forall_get; [apply nopeer_ok|exact H]. Qed.
+
+Lemma tag_info_for_ok : forall t pi, peer_ok pi -> peer_ok (tag_info_for t pi).
+Proof.
+  intros t pi H. unfold tag_info_for. destruct (p_tracked pi); [exact H|].
+  repeat split; intros; cbn in *; try reflexivity; discriminate.
+Qed.
+
+Lemma tag_info_for_tracked : forall t pi, p_tracked (tag_info_for t pi) = true.
+Proof. intros. unfold tag_info_for. destruct (p_tracked pi) eqn:E; [exact E|reflexivity]. Qed.
+
+Lemma tag_info_for_conns : forall t pi, peer_ok pi -> p_conns (tag_info_for t pi) = p_conns pi.
+Proof.
+  intros t pi H. unfold tag_info_for. destruct (p_tracked pi) eqn:E; [reflexivity|].
+  destruct H as [H _]. rewrite (H E). reflexivity.
+Qed.
+
+Lemma inv_set_peer : forall s p pi, inv s -> peer_ok pi ->
+  zlen (p_conns pi) = zlen (p_conns (peer_at s p)) ->
+  inv (set_peer s p pi).
+Proof.
+  intros s p pi [HF HC] Hp Hl. split; cbn [set_peer peers count].
+  - apply Forall_upd; [apply nopeer_ok|exact Hp|exact HF].
+  - unfold conn_total. rewrite (zsum_map_upd (fun pi => zlen (p_conns pi))); [|reflexivity].
+    unfold peer_at in Hl. unfold conn_total in HC. lia.
+Qed.
+
+Lemma inv_set_peer_count : forall s p pi k, inv s -> peer_ok pi ->
+  zlen (p_conns pi) = zlen (p_conns (peer_at s p)) + k ->
+  inv (set_count (set_peer s p pi) (count s + k)).
+Proof.
+  intros s p pi k [HF HC] Hp Hl. split; cbn [set_count set_peer peers count].
+  - apply Forall_upd; [apply nopeer_ok|exact Hp|exact HF].
+  - unfold conn_total. rewrite (zsum_map_upd (fun pi => zlen (p_conns pi))); [|reflexivity].
+    unfold peer_at in Hl. unfold conn_total in HC. lia.
+Qed.
+
+Lemma inv_connected : forall s p c, inv s -> inv (connected s p c).
+Proof.
+  intros s p c H. pose proof (peer_at_ok s p H) as [Hu [Hv Ht]]. unfold connected.
+  destruct (p_tracked (peer_at s p)) eqn:Etr; cbn [negb].
+  - destruct (p_temp (peer_at s p)) eqn:Etmp.
+    + (* temp entry: conns = [] *)
+      specialize (Ht eq_refl). destruct (p_conns (peer_at s p)) eqn:Ec; [|discriminate].
+      cbn [p_conns memn with_conns]. 
+      replace (count s + 1) with (count s + 1) by reflexivity.
+      apply inv_set_peer_count; [exact H| |rewrite Ec; reflexivity].
+      repeat split; cbn; intros; try discriminate; try assumption; reflexivity.
+    + destruct (memn c (p_conns (peer_at s p))) eqn:Em.
+      * apply inv_set_peer; [exact H|apply peer_at_ok, H|reflexivity].
+      * apply inv_set_peer_count; [exact H| |unfold zlen; cbn [with_conns p_conns length]; lia].
+        unfold with_conns. repeat split; cbn; intros; try discriminate; try congruence; try assumption.
+
+  - cbn [p_conns memn].
+    apply inv_set_peer_count; [exact H| |rewrite (Hu eq_refl); reflexivity].
+    unfold with_conns. repeat split; cbn; intros; try discriminate; reflexivity.
+Qed.
+
+Lemma inv_disconnected : forall s p c, inv s -> inv (disconnected s p c).
+Proof.
+  intros s p c H. pose proof (peer_at_ok s p H) as [Hu [Hv Ht]]. unfold disconnected.
+  destruct (p_tracked (peer_at s p)) eqn:Etr; cbn [negb]; [|exact H].
+  destruct (memn c (p_conns (peer_at s p))) eqn:Em; cbn [negb]; [|exact H].
+  pose proof (rem1_length c _ Em) as Hl.
+  replace (count s - 1) with (count s + (-1)) by lia.
+  destruct (rem1 c (p_conns (peer_at s p))) eqn:Er; cbn [is_nil].
+  - apply inv_set_peer_count; [exact H|apply nopeer_ok|]. cbn [nopeer p_conns]. unfold zlen in *. cbn [length] in *. lia.
+  - apply inv_set_peer_count; [exact H| |cbn [with_conns p_conns]; lia].
+    unfold with_conns. repeat split; cbn; intros; try discriminate; try congruence; try assumption.
+    specialize (Ht eq_refl). rewrite Ht. destruct (p_conns (peer_at s p)); [discriminate Em|reflexivity].
+Qed.
+
+(* tag-like updates of one peer entry *)
+Lemma with_tags_ok : forall pi tags v, peer_ok pi -> p_tracked pi = true ->
+  v = zsum tags + zsum (p_dec pi) -> peer_ok (with_tags pi tags v).
+Proof.
+  intros pi tags v [Hu [Hv Ht]] Etr Hval. repeat split; cbn; intros; try congruence. auto.
+Qed.
+
+Lemma with_dec_ok : forall pi dec v, peer_ok pi -> p_tracked pi = true ->
+  v = zsum (p_tags pi) + zsum dec -> peer_ok (with_dec pi dec v).
+Proof.
+  intros pi dec v [Hu [Hv Ht]] Etr Hval. repeat split; cbn; intros; try congruence. auto.
+Qed.
+
+Lemma inv_tagged : forall s p pi', inv s -> peer_ok pi' ->
+  p_conns pi' = p_conns (peer_at s p) -> inv (set_peer s p pi').
+Proof. intros. apply inv_set_peer; auto. congruence. Qed.
+
+Lemma inv_tag_peer : forall s p t v, inv s -> inv (tag_peer s p t v).
+Proof.
+  intros s p t v H. pose proof (peer_at_ok s p H) as Hp. unfold tag_peer.
+  set (pi := tag_info_for (now s) (peer_at s p)).
+  pose proof (tag_info_for_ok (now s) _ Hp) as Hpi. fold pi in Hpi.
+  apply inv_tagged; [exact H| |cbn [with_tags p_conns]; apply tag_info_for_conns, Hp].
+  apply with_tags_ok; [exact Hpi|apply tag_info_for_tracked|].
+  rewrite zsum_upd. destruct Hpi as [_ [Hv _]]. lia.
+Qed.
+
+Lemma inv_untag_peer : forall s p t, inv s -> inv (untag_peer s p t).
+Proof.
+  intros s p t H. pose proof (peer_at_ok s p H) as Hp. unfold untag_peer.
+  destruct (p_tracked (peer_at s p)) eqn:Etr; cbn [negb]; [|exact H].
+  apply inv_tagged; [exact H| |reflexivity].
+  apply with_tags_ok; [exact Hp|exact Etr|]. rewrite zsum_upd. destruct Hp as [_ [Hv _]]. lia.
+Qed.
+
+Lemma inv_upsert_tag : forall s p t d, inv s -> inv (upsert_tag s p t d).
+Proof.
+  intros s p t d H. pose proof (peer_at_ok s p H) as Hp. unfold upsert_tag.
+  set (pi := tag_info_for (now s) (peer_at s p)).
+  pose proof (tag_info_for_ok (now s) _ Hp) as Hpi. fold pi in Hpi. cbv zeta.
+  apply inv_tagged; [exact H| |cbn [with_tags p_conns]; apply tag_info_for_conns, Hp].
+  apply with_tags_ok; [exact Hpi|apply tag_info_for_tracked|].
+  rewrite zsum_upd. destruct Hpi as [_ [Hv _]]. lia.
+Qed.
+
+Lemma inv_bump : forall cfg s p d dl, inv s -> inv (bump cfg s p d dl).
+Proof.
+  intros cfg s p d dl H. pose proof (peer_at_ok s p H) as Hp. unfold bump.
+  destruct (dtag_open cfg s d); cbn [negb]; [|exact H].
+  set (pi := tag_info_for (now s) (peer_at s p)).
+  pose proof (tag_info_for_ok (now s) _ Hp) as Hpi. fold pi in Hpi. cbv zeta.
+  apply inv_tagged; [exact H| |cbn [with_dec p_conns]; apply tag_info_for_conns, Hp].
+  apply with_dec_ok; [exact Hpi|apply tag_info_for_tracked|].
+  rewrite zsum_upd. destruct Hpi as [_ [Hv _]]. lia.
+Qed.
+
+Lemma inv_dremove : forall cfg s p d, inv s -> inv (dremove cfg s p d).
+Proof.
+  intros cfg s p d H. pose proof (peer_at_ok s p H) as Hp. unfold dremove.
+  destruct (dtag_open cfg s d); cbn [negb]; [|exact H].
+  set (pi := tag_info_for (now s) (peer_at s p)).
+  pose proof (tag_info_for_ok (now s) _ Hp) as Hpi. fold pi in Hpi. cbv zeta.
+  apply inv_tagged; [exact H| |cbn [with_dec p_conns]; apply tag_info_for_conns, Hp].
+  apply with_dec_ok; [exact Hpi|apply tag_info_for_tracked|].
+  rewrite zsum_upd. destruct Hpi as [_ [Hv _]]. lia.
+Qed.
+
+(* operations that map over all peers without touching connections *)
+Lemma inv_map_peers : forall (f : peer -> peer) ps,
+  (forall pi, peer_ok pi -> peer_ok (f pi)) ->
+  (forall pi, p_conns (f pi) = p_conns pi) ->
+  Forall peer_ok ps -> Forall peer_ok (map f ps) /\ conn_total (map f ps) = conn_total ps.
+Proof.
+  intros f ps Hok Hc H. induction H as [|y r Hy Hr [IH1 IH2]]; [split; [constructor|reflexivity]|].
+  split; [constructor; auto|]. unfold conn_total in *. cbn [map zsum]. rewrite Hc, IH2. reflexivity.
+Qed.
+
+Lemma inv_dclose : forall cfg s d, inv s -> inv (dclose cfg s d).
+Proof.
+  intros cfg s d [HF HC]. unfold dclose. destruct (dtag_open cfg s d); cbn [negb]; [|split; assumption].
+  match goal with |- inv (mkSt (map ?f _) _ _ _ _) => destruct (inv_map_peers f (peers s)) as [H1 H2] end.
+  - intros pi Hp. destruct (p_tracked pi) eqn:Etr; [|exact Hp].
+    apply with_dec_ok; [exact Hp|exact Etr|]. rewrite zsum_upd. destruct Hp as [_ [Hv _]]. lia.
+  - intros pi. destruct (p_tracked pi); reflexivity.
+  - exact HF.
+  - split; cbn [peers count]; [exact H1|]. rewrite H2. exact HC.
+Qed.
+
+Lemma inv_tick : forall cfg s t, inv s -> inv (tick cfg s t).
+Proof.
+  intros cfg s t [HF HC]. unfold tick. cbv zeta.
+  match goal with |- inv (mkSt (map ?f _) _ _ _ _) => destruct (inv_map_peers f (peers s)) as [H1 H2] end.
+  - intros pi Hp. destruct (p_tracked pi) eqn:Etr; [|exact Hp].
+    pose proof (decay_tags_sum (visits cfg (dst s) t) (p_dec pi)) as Hs.
+    destruct (decay_tags (visits cfg (dst s) t) (p_dec pi)) as [dec' dl]. cbn [fst snd] in Hs.
+    apply with_dec_ok; [exact Hp|exact Etr|]. destruct Hp as [_ [Hv _]]. lia.
+  - intros pi. destruct (p_tracked pi); [|reflexivity].
+    destruct (decay_tags (visits cfg (dst s) t) (p_dec pi)). reflexivity.
+  - exact HF.
+  - split; cbn [peers count]; [exact H1|]. rewrite H2. exact HC.
+Qed.
+
+Lemma inv_unit_step : forall cfg s, inv s -> inv (unit_step cfg s).
+Proof.
+  intros cfg s H. unfold unit_step. cbv zeta. destruct (_ =? 0); [apply inv_tick, H|].
+  destruct H as [HF HC]. split; assumption.
+Qed.
+
+Lemma inv_advance : forall cfg n s, inv s -> inv (advance cfg s n).
+Proof. intros cfg. induction n as [|k IH]; intros s H; cbn [advance]; [exact H|]. apply IH, inv_unit_step, H. Qed.
+
+Lemma inv_protect : forall s p g, inv s -> inv (protect s p g).
+Proof. intros s p g [HF HC]. split; assumption. Qed.
+
+Lemma inv_unprotect : forall s p g, inv s -> inv (unprotect s p g).
+Proof. intros s p g [HF HC]. split; assumption. Qed.
+
+(* pruning temporary entries: each pruned entry holds no connection *)
+Lemma inv_prune : forall pr s, inv s ->
+  (forall p, In p pr -> p_conns (peer_at s p) = []) ->
+  inv (fold_left (fun s' p => set_peer s' p nopeer) pr s).
+Proof.
+  induction pr as [|p r IH]; intros s H Hc; cbn [fold_left]; [exact H|].
+  apply IH.
+  - apply inv_set_peer; [exact H|apply nopeer_ok|]. rewrite (Hc p (or_introl eq_refl)). reflexivity.
+  - intros q Hq. unfold peer_at. cbn [set_peer peers]. rewrite get_upd.
+    destruct (Nat.eqb p q); [reflexivity|]. apply Hc. right. exact Hq.
 Qed.
